@@ -52,6 +52,7 @@ type vrCase struct {
 	Rd       []string          `json:"rd"`
 	MaxStep  int               `json:"maxstep"`
 	Modifier bool              `json:"modifier"`
+	Inplace  bool              `json:"inplace"` // a MessageModifier that replaces the first element of the slice it is given, in place
 	Checker  string            `json:"checker"`  // default | whole
 	Chunking string            `json:"chunking"` // whole | tcfirst | emptyfirst | splitargs | percall | contentfirst
 	TKinds   map[string]string `json:"tkinds"`   // tool -> inv | str
@@ -393,7 +394,7 @@ func vrRunCase(c *vrCase) []string {
 		order = map[string][]int{}
 	}
 	lines := []string{vrLine("case", "id", c.ID, "msgs", msgs, "script", script, "tools", strs(c.Tools), "rd", strs(c.Rd), "maxstep", c.MaxStep,
-		"modifier", c.Modifier, "checker", c.Checker, "chunking", c.Chunking, "api", c.API, "pipe", c.Pipe, "nested", c.Nested,
+		"modifier", c.Modifier, "inplace", c.Inplace, "checker", c.Checker, "chunking", c.Chunking, "api", c.API, "pipe", c.Pipe, "nested", c.Nested,
 		"overlap", c.Overlap, "order", order)}
 	ctx0 := context.Background()
 
@@ -413,6 +414,16 @@ func vrRunCase(c *vrCase) []string {
 	}
 	if c.Modifier {
 		conf.MessageModifier = NewPersonaModifier("sys")
+	}
+	if c.Inplace {
+		conf.MessageModifier = func(_ context.Context, in []*schema.Message) []*schema.Message {
+			if len(in) > 0 && in[0] != nil {
+				m := *in[0]
+				m.Content = "M:" + m.Content
+				in[0] = &m // the slice is edited in place; the message object it pointed to is left alone
+			}
+			return in
+		}
 	}
 	if len(c.Rd) > 0 {
 		conf.ToolReturnDirectly = map[string]struct{}{}
@@ -603,7 +614,7 @@ func TestVerifReact(t *testing.T) {
 				case <-time.After(vrCaseTimeout):
 					// the agent does not stop (nor fail): recorded as the observation `hang`; its goroutines are abandoned
 					atomic.AddInt32(&vrHangs, 1)
-					results[i] = []string{`{"ev":"case","id":` + vrJSON(cases[i].ID) + `,"msgs":[],"script":[],"tools":[],"rd":[],"maxstep":0,"modifier":false}`,
+					results[i] = []string{`{"ev":"case","id":` + vrJSON(cases[i].ID) + `,"msgs":[],"script":[],"tools":[],"rd":[],"maxstep":0,"modifier":false,"inplace":false}`,
 						`{"ev":"hang","after_ms":` + vrJSON(int(vrCaseTimeout/time.Millisecond)) + `}`, `{"ev":"end"}`}
 				}
 			}
